@@ -81,7 +81,8 @@ Proof. destruct a, b; cbn; congruence. Qed.
 
 Lemma reset_fields s :
   s_timer (tcp_reset s) = TIdle None /\ s_timeout (tcp_reset s) = s_timeout s /\
-  s_keep_alive (tcp_reset s) = s_keep_alive s /\ s_ack_delay (tcp_reset s) = s_ack_delay s.
+  s_keep_alive (tcp_reset s) = s_keep_alive s /\ s_ack_delay (tcp_reset s) = s_ack_delay s /\
+  s_ack_delay_timer (tcp_reset s) = ADIdle.
 Proof. unfold tcp_reset, timer_new. sproj. repeat split; reflexivity. Qed.
 
 
@@ -93,7 +94,7 @@ Lemma listen_fields s ep s' :
 Proof.
   unfold tcp_listen. intros H Hst. destruct (Z.eqb_spec (le_port ep) 0) as [E | E]; [discriminate|].
   unfold tcp_is_open in H. rewrite Hst in H.
-  pose proof (reset_fields s) as R. revert H R. generalize (tcp_reset s). intros q H (R1 & R2 & R3 & R4).
+  pose proof (reset_fields s) as R. revert H R. generalize (tcp_reset s). intros q H (R1 & R2 & R3 & R4 & R5).
   inversion H; subst s'; clear H.
   unfold tcp_set_state. sproj. rewrite R1, R2, R3, R4. split; [exact E|]. repeat split.
 Qed.
@@ -103,17 +104,18 @@ Lemma connect_fields cx s ra rp lp s' :
   rp <> 0 /\ ra <> 0 /\ lp <> 0 /\ s_state s' = SynSent /\
   s_tuple s' = Some (mkTuple (cx_addr cx) lp ra rp) /\
   s_timer s' = TIdle None /\ s_timeout s' = s_timeout s /\ s_keep_alive s' = s_keep_alive s /\
-  s_ack_delay s' = s_ack_delay s /\ s_remote_last_seq s' = s_local_seq_no s'.
+  s_ack_delay s' = s_ack_delay s /\ s_remote_last_seq s' = s_local_seq_no s' /\
+  s_ack_delay_timer s' = ADIdle.
 Proof.
   unfold tcp_connect. cbn [le_port le_addr]. intros H Hst.
   unfold tcp_is_open in H. rewrite Hst in H.
   destruct ((rp =? 0) || (ra =? 0)) eqn:E1; [discriminate|].
   destruct (Z.eqb_spec lp 0) as [E2 | E2]; [discriminate|].
   cbn [obind] in H.
-  pose proof (reset_fields s) as R. revert H R. generalize (tcp_reset s). intros q H (R1 & R2 & R3 & R4).
+  pose proof (reset_fields s) as R. revert H R. generalize (tcp_reset s). intros q H (R1 & R2 & R3 & R4 & R5).
   inversion H; subst s'; clear H.
   apply orb_false_iff in E1. destruct E1 as (E1a & E1b). apply Z.eqb_neq in E1a, E1b.
-  unfold tcp_set_state. sproj. rewrite R1, R2, R3, R4.
+  unfold tcp_set_state. sproj. rewrite R1, R2, R3, R4, R5.
   split; [exact E1a|]. split; [exact E1b|]. split; [exact E2|]. repeat split.
 Qed.
 
@@ -154,7 +156,7 @@ Proof.
       rewrite A1, X, (cr_st _ _ CA) in SA1. discriminate. }
   assert (X3 : sa' = sc) by (inversion Hsa; reflexivity). assert (X4 : outa = OUnit) by (inversion Hsa; reflexivity).
   rewrite X3 in A1. rewrite X4 in A3, A4. clear Hsa X3 X4.
-  destruct (connect_fields _ _ _ _ _ _ Ec (cr_st _ _ CA)) as (Hpb' & Hab & Hpa & LA1 & LA2 & LA3 & LA4 & LA5 & LA6 & _).
+  destruct (connect_fields _ _ _ _ _ _ Ec (cr_st _ _ CA)) as (Hpb' & Hab & Hpa & LA1 & LA2 & LA3 & LA4 & LA5 & LA6 & _ & _).
   cbn [wire_out opt_list log_written log_closed] in A3, A4, A5, B3, B4, B5. rewrite app_nil_r in A3, B3.
   assert (Hcxa : cx_addr (ep_cx a0) = c_addr ca) by (rewrite (cr_cx _ _ CA); reflexivity).
   assert (Hcxb : cx_addr (ep_cx b0) = c_addr cb) by (rewrite (cr_cx _ _ CB); reflexivity).
@@ -199,7 +201,31 @@ Proof.
   2:{ exfalso. assert (X : sa' = ep_sock a0) by (inversion Hsa; reflexivity).
       rewrite A1, X, (cr_st _ _ CA) in SA1. discriminate. }
   assert (X3 : sa' = sc) by (inversion Hsa; reflexivity). rewrite X3 in A1.
-  destruct (connect_fields _ _ _ _ _ _ Ec (cr_st _ _ CA)) as (_ & _ & _ & _ & _ & _ & _ & _ & _ & L).
+  destruct (connect_fields _ _ _ _ _ _ Ec (cr_st _ _ CA)) as (_ & _ & _ & _ & _ & _ & _ & _ & _ & L & _).
+  unfold net_sock. cbn [net_get n_a]. rewrite A1. exact L.
+Qed.
+
+(* ... and no delayed-ACK timer is running *)
+Lemma init_adt ca cb st0 :
+  net_init ca cb = Ok st0 -> net_started st0 = true -> c_keep_alive ca = None ->
+  s_ack_delay_timer (net_sock st0 SA) = ADIdle.
+Proof.
+  intros H Hstart Ka. unfold net_init in H.
+  apply obind_ok in H. destruct H as (a0 & Ha0 & H).
+  apply obind_ok in H. destruct H as (b0 & Hb0 & H).
+  apply obind_ok in H. destruct H as (b1 & Hb1 & H).
+  apply obind_ok in H. destruct H as (a1 & Ha1 & H). inversion H; subst st0; clear H.
+  pose proof (create_props _ _ Ka Ha0) as CA.
+  unfold net_started in Hstart. cbn [n_a n_b] in Hstart. apply andb_true_iff in Hstart. destruct Hstart as (SA1 & _).
+  apply state_eqb_eq in SA1.
+  destruct (ep_step_spec _ _ _ Ha1) as (sa' & outa & tagsa & Hsa & A1 & _).
+  cbn [tcp_step] in Hsa.
+  destruct (tcp_connect (ep_cx a0) (ep_sock a0) (c_addr cb) (c_port cb) (mkListenEp None (c_port ca))) as [sc|err|] eqn:Ec;
+    [| |discriminate].
+  2:{ exfalso. assert (X : sa' = ep_sock a0) by (inversion Hsa; reflexivity).
+      rewrite A1, X, (cr_st _ _ CA) in SA1. discriminate. }
+  assert (X3 : sa' = sc) by (inversion Hsa; reflexivity). rewrite X3 in A1.
+  destruct (connect_fields _ _ _ _ _ _ Ec (cr_st _ _ CA)) as (_ & _ & _ & _ & _ & _ & _ & _ & _ & _ & L).
   unfold net_sock. cbn [net_get n_a]. rewrite A1. exact L.
 Qed.
 
